@@ -1,15 +1,22 @@
 """C03 -- every coarse level is the (re-scaled) Galerkin product; rebuild keeps it so."""
-import random
+import random, re
 from fractions import Fraction as F
+import vcheck
 from vcheck import fmt_q
 import gen
 from props import amg_common as ac
+from props import amg_block as ab
 
-DRIVERS = ac.DRIVERS
+DRIVERS = ac.DRIVERS + ab.DRIVERS
 MODEL = "amg"
+MODEL_BLOCK = "amgb"     # second model driver (coq/Extract_amgb.v, ocaml/amgb): built by run()
 ASSUMPTIONS = [
     "transfer operators P, R are taken from the implementation's own hierarchy dump (their correctness is property C04); everything downstream (row sorting, Galerkin products, over-interpolation scaling, level rules, rebuild) is recomputed by the model",
     "the direct coarse solver is modelled by an exact dense solve (skyline LU itself is property C16)",
+]
+ASSUMPTIONS += [
+    "block value types / coarsening wrappers: hierarchies are dumped EXPANDED to scalar CRS and compared with the scalar model / the scalar statement on the expanded matrices (block product = product of expansions, block adjoint = transpose of the expansion, in exact arithmetic); sizes are converted to expanded rows",
+    "block-valued smoothers and the block cycle are not modelled here (C06/C02): 'acts like a fresh hierarchy' is an implementation-vs-implementation comparison against a new amg object whose coarsening replays the stored transfer operators (harness policy tape<C>)",
 ]
 RULE = "seeded random hierarchies (SPD M-matrices on paths/grids/random graphs, non-symmetric diagonally dominant), 4 coarsenings x 3 modelled relaxations x level parameters, scripts of dump/rebuild/apply; distinct = distinct case line; non-trivial = implementation output contains a non-zero value"
 
@@ -94,12 +101,40 @@ def make_cases(tier, seed):
         cases.append(ac.Case("c%d" % k, co, rx, cfg, ac.rand_cprm(r, co), r.choice(["1", "1/2", "3/4", "-", "5/8"]), n, rows, script))
     return cases
 
+def classify(f):
+    """signature of a failure (matched against known_findings.d/C03-*.json)"""
+    th = f.get("theorem") or ""; blk = f.get("block")
+    if blk and "level sizes do not strictly decrease" in th:
+        m = re.search(r"FAIL sizes ([0-9,>-]+) ", th)
+        pairs = [p.split("->") for p in m.group(1).split(",")] if m else []
+        return dict(clause="sizes-strictly-decrease", stall=bool(pairs) and all(a == b_ for a, b_ in pairs),
+                    nullspace_cols_gt_block_size=blk["nullspace_cols"] > blk["block_size"])
+    return {}
+
+def run_block(ctx, cases_override=None):
+    """block value types and coarsening wrappers (tools/props/amg_block.py)"""
+    cases = ab.make_cases(ctx["tier"], ctx["seed"])
+    if cases_override:
+        ids = set(l.split(" ", 1)[0] for l in cases_override)
+        cases = [c for c in cases if c.cid in ids]
+        if not cases: return []
+    try:
+        vcheck.coq_build(ctx["log"], None, MODEL_BLOCK)
+        model_exe = vcheck.build_model(ctx["log"], MODEL_BLOCK)
+    except Exception as e:
+        return [dict(kind="broken-model-build", case=None, has_input=False, impl=None, model=None, op="amgbm", size=0,
+                     theorem="Extract_amgb.v / OCaml driver of the amgb group does not build: " + str(e)[-1500:])]
+    return ab.run_cases(ctx, cases, model_exe)
+
 def run(ctx, cases_override=None):
+    bfails = run_block(ctx, cases_override)
     cases = make_cases(ctx["tier"], ctx["seed"])
     if cases_override:
         ids = set(l.split(" ", 1)[0] for l in cases_override)
+        if ids and all(i.startswith("b") for i in ids): return bfails
         cases = [c for c in cases if c.cid in ids] or cases
     fails, impl, model, levels = ac.run_cases(ctx, cases)
+    fails = bfails + fails
     # implementation-side oracles on every dump (independent of the model)
     for c in cases:
         o = impl.get(c.cid)
